@@ -330,3 +330,93 @@ func bigBatches(c *Ctx, pid string) {
 	}
 	c.DistinctCase("big-batches")
 }
+
+// refilterHop: the tie of RefilterHop.v (sent = the first EventBufsiz events
+// of the delta) to filterSubscription.distributeEvents.  A filtered
+// subscription that holds nothing (accept-none) over n objects is refiltered
+// to accept-all while NOBODY reads its Events(): the delta is n Creates, pushed
+// without waiting into outch by the subscription's own goroutine — no other
+// goroutine takes part, so what sits in the channel afterwards does not depend
+// on the schedule.  The model (runner command 20: RootHop.burst) is asked how
+// many that are; which ones they are is the order of a Go map and is compared
+// only as "distinct Creates of listed objects".  Sizes straddle the buffer.
+func refilterHop(c *Ctx) {
+	cap := kcache.EventBufsiz
+	for _, n := range []int{1, cap - 1, cap, cap + 1, cap + 37, 2*cap + 1} {
+		what := fmt.Sprintf("Refilter accept-none -> accept-all over %d objects, nobody reading Events() meanwhile", n)
+		c.Now(what)
+		var delta, recv []enc.T
+		var cached int
+		var problems []string
+		dl := sched.Bubble(c.T, func() {
+			srv := fakeapi.New()
+			for k := 0; k < n; k++ {
+				srv.Set(1+k%3, 1+k/3, labSets[1], 1)
+			}
+			ct := newCtlWith(srv, c.Seed, 0, time.Hour, nil)
+			defer func() {
+				ct.c.Close()
+				sched.Settle()
+			}()
+			sched.Settle()
+			fs, err := ct.c.SubscribeWithFilter((&Filt{Tag: FAll}).Go())
+			if err != nil {
+				problems = append(problems, "SubscribeWithFilter failed")
+				return
+			}
+			sched.Settle()
+			if err := fs.Refilter((&Filt{Tag: FNull}).Go()); err != nil {
+				problems = append(problems, "Refilter failed: "+err.Error())
+				return
+			}
+			sched.Settle()
+			fl, _ := fs.Cache().List()
+			cached = len(fl)
+			listed := map[int]bool{}
+			for _, o := range fl {
+				id := ID(o)
+				listed[id] = true
+				delta = append(delta, enc.I(id))
+			}
+			seen := map[int]bool{}
+		drain:
+			for {
+				select {
+				case ev, ok := <-fs.Events():
+					if !ok {
+						problems = append(problems, "Events() closed")
+						break drain
+					}
+					id := ID(ev.Resource())
+					switch {
+					case ev.Type() != kcache.EventTypeCreate:
+						problems = append(problems, fmt.Sprintf("a %v event in the delta of a Refilter that only admits", ev.Type()))
+					case !listed[id]:
+						problems = append(problems, "a Create for an object that is not in the cache")
+					case seen[id]:
+						problems = append(problems, "two Creates for one object")
+					}
+					seen[id] = true
+					recv = append(recv, enc.I(id))
+				default:
+					break drain
+				}
+			}
+		})
+		replay := map[string]interface{}{"scenario": what, "objects": n, "cached": cached, "creates_in_channel": len(recv), "event_buffer": cap}
+		if dl != "" {
+			replay["deadlock"] = dl
+			c.Violation("", "hang (bubble deadlock): "+what, replay)
+			continue
+		}
+		for _, p := range problems {
+			c.Violation("", p+" ["+what+"]", replay)
+		}
+		if cached != n {
+			c.Violation("", fmt.Sprintf("after Refilter(accept-all) the filtered cache holds %d objects, its parent %d", cached, n), replay)
+			continue
+		}
+		c.Case(enc.L(enc.I(20), enc.I(cap), enc.L(delta...), enc.L(recv...)))
+		c.DistinctCase(fmt.Sprintf("refilter-hop-%d", n))
+	}
+}
